@@ -188,6 +188,12 @@ class Inliner(object):
         s.body = self._delegations(s.body, fn, stack, inlined, False, depth)
       elif isinstance(s, ast.Try):
         s.body = self._delegations(s.body, fn, stack, inlined, False, depth)
+      fused = self._fuse_consumer(s, fn, stack, inlined, tail and last, depth)
+      if fused is not None:
+        spliced = self._delegations(fused, fn, stack, inlined, tail and last, depth + 1)
+        block[i:i + 1] = spliced
+        i += len(spliced)
+        continue
       d = _delegation_call(s)
       if d is not None and depth < self.max_depth:
         callee = self._callee(d, fn)
@@ -202,6 +208,62 @@ class Inliner(object):
               continue
       i += 1
     return block
+
+  def _fuse_consumer(self, s, fn, stack, inlined, tail, depth):
+    """for x in self.gen(...): BODY   with a generator helper  ->  the helper's body with BODY (after `x = <yielded>`) in
+    place of each yield.  Exact when BODY has no break / continue of that loop (they would have to leave / resume the
+    helper) and the helper's `return`s can stand as returns of the caller (the loop is the last thing the caller does)."""
+    if not (isinstance(s, ast.For) and not s.orelse and isinstance(s.iter, ast.Call)) or _delegation_call(s) is not None or \
+       depth >= self.max_depth:
+      return None
+    callee = self._callee(s.iter, fn)
+    if callee is None or callee.key in stack or not self._simple(callee, s.iter, generator=True):
+      return None
+    for x in walk_no_nested(s, include_self=False):
+      if isinstance(x, (ast.Break, ast.Continue)):
+        # does it belong to s?
+        inner = False
+        for y in walk_no_nested(s, include_self=False):
+          if isinstance(y, (ast.For, ast.While)) and any(z is x for z in ast.walk(y)):
+            inner = True
+        if not inner:
+          return None
+    ys = [x for x in walk_no_nested(callee.node, include_self=False) if isinstance(x, (ast.Yield, ast.YieldFrom))]
+    stmt_ys = [st for st in walk_no_nested(callee.node, include_self=False) if isinstance(st, ast.Expr) and isinstance(st.value, ast.Yield)]
+    if len(ys) != len(stmt_ys) or len(ys) > 2 or any(isinstance(y, ast.YieldFrom) for y in ys):
+      return None
+    has_ret = any(isinstance(x, ast.Return) for x in walk_no_nested(callee.node, include_self=False))
+    if has_ret and not tail:
+      return None
+    res = self._expand(s.iter, callee, fn, stack, inlined, depth, 'generator')
+    if res is None:
+      return None
+    body = s.body
+    target = s.target
+
+    class Y(ast.NodeTransformer):
+      def visit_Expr(self, n):
+        if isinstance(n.value, ast.Yield):
+          val = n.value.value if n.value.value is not None else ast.Constant(value=None)
+          bind = ast.copy_location(ast.Assign(targets=[_clone(target)], value=val), n)
+          for x in ast.walk(bind.targets[0]):
+            if hasattr(x, 'ctx'):
+              x.ctx = ast.Store()
+          return [bind] + [_clone(b) for b in body]
+        return n
+
+      def visit_FunctionDef(self, n):
+        return n
+
+      def visit_Lambda(self, n):
+        return n
+    out = []
+    for st in res[0]:
+      r = Y().visit(st)
+      out.extend(r if isinstance(r, list) else [r])
+    for st in out:
+      ast.fix_missing_locations(st)
+    return out
 
   # ------------------------------------------------------------------ statements
   def _block(self, stmts, fn, stack, inlined, depth):
